@@ -102,15 +102,31 @@ Proof. vm_compute. reflexivity. Qed.
 Example char_token_multichar_avr8 : char_token_value plat_avr8 false 2 65535 = (-1)%Z.
 Proof. vm_compute. reflexivity. Qed.
 
-(* a single octal escape not starting with 0 (or a hex escape with more than two digits) is counted as
-   several characters by Token::isCChar, so the platform adjustment is skipped: '\377' on a platform
-   whose plain char is unsigned is reported as -1, its value is 255 *)
-Theorem octal_escape_char_token_refuted :
-  exists p s z n, In p Gen_platforms /\ p_sign p = 117 /\
-                  char_literal_to_ll s = Some z /\ narrow_nbytes s = Some 1 /\ token_char_count s = Some n /\
-                  (forall cpp, char_token_value p cpp n z <> char_value_on p 255).
+(* an octal escape of one to three digits is one character for Token::isCChar (since /repo 6f10427) *)
+Lemma oct_not_x a : is_octdigit a = true -> (a =? 120) = false.
 Proof.
-  exists plat_arm32_wchar_t4, [39; 92; 51; 55; 55; 39], (-1)%Z, 3.
-  split; [vm_compute; tauto|]. split; [reflexivity|]. split; [vm_compute; reflexivity|].
-  split; [vm_compute; reflexivity|]. split; [vm_compute; reflexivity|]. intros cpp. vm_compute. discriminate.
+  unfold is_octdigit. intros H. apply N.eqb_neq. intros ->. discriminate.
 Qed.
+
+Theorem token_char_count_octal_escape ds :
+  (1 <= length ds <= 3)%nat -> forallb is_octdigit ds = true ->
+  token_char_count (39 :: 92 :: ds ++ [39]) = Some 1.
+Proof.
+  intros Hl Hd. unfold token_char_count.
+  change (92 :: ds ++ [39]) with ((92 :: ds) ++ [39]). rewrite removelast_last.
+  destruct ds as [|a [|b [|c [|x r]]]]; cbn [length] in Hl; try lia;
+    cbn [forallb] in Hd; repeat rewrite andb_true_iff in Hd.
+  - destruct Hd as [Ha _]. cbn [length escape_count_go]. change (negb (92 =? 92)) with false. cbv iota.
+    rewrite (oct_not_x a Ha), Ha. reflexivity.
+  - destruct Hd as (Ha & Hb & _). cbn [length escape_count_go]. change (negb (92 =? 92)) with false. cbv iota.
+    rewrite (oct_not_x a Ha), Ha. cbn [skip2]. rewrite Hb. reflexivity.
+  - destruct Hd as (Ha & Hb & Hc & _). cbn [length escape_count_go]. change (negb (92 =? 92)) with false. cbv iota.
+    rewrite (oct_not_x a Ha), Ha. cbn [skip2]. rewrite Hb, Hc. reflexivity.
+Qed.
+
+(* the witness that failed before /repo 6f10427: '\377' on arm32-wchar_t4 is one character and is reported as 255 *)
+Example octal_escape_char_token_now :
+  token_char_count [39; 92; 51; 55; 55; 39] = Some 1 /\
+  char_literal_to_ll [39; 92; 51; 55; 55; 39] = Some (-1)%Z /\
+  char_token_value plat_arm32_wchar_t4 false 1 (-1) = char_value_on plat_arm32_wchar_t4 255.
+Proof. vm_compute. repeat split; reflexivity. Qed.
